@@ -313,7 +313,7 @@ pub fn run_c05(ctx: &RunCtx) -> Outcome {
 /// coverage-guided campaign of a byte-decoded target; artifacts are re-checked in-process and shrunk
 pub fn fuzz_stage<P: PatProp>(ctx: &RunCtx, o: &mut Outcome, p: &P, target: &str, recheck: fn(&[u8]) -> Option<Found>) {
     let seeds = crate::fuzzrun::byte_seeds(ctx, 64, 48);
-    match crate::fuzzrun::campaign(ctx, target, 16, 40_000, 96, &seeds) {
+    match crate::fuzzrun::campaign(ctx, target, 16, if target == "fuzz_search" { 12_000 } else { 40_000 }, 96, &seeds) {
         Ok(c) => {
             o.stats.evaluations += c.runs_done;
             o.extra.insert("fuzz".into(), c.evidence);
